@@ -102,6 +102,51 @@ class Rendered:
         self.fex_order = order
         return out
 
+    def expand_many(self, exprs):
+        """each expression as the compiler sees it after including naunet_macros.h (one run of the real preprocessor)"""
+        import subprocess
+        from .cbuild import SHIM
+        cache = self.__dict__.setdefault("_expanded", {})
+        todo = [e for e in dict.fromkeys(exprs) if e not in cache]
+        if todo:
+            src = '#include "naunet_macros.h"\n' + "".join(f"VERIF_EXPR_{i} {e}\n" for i, e in enumerate(todo))
+            r = subprocess.run(["g++", "-E", "-P", "-x", "c++", f"-I{self.path / 'include'}", f"-I{SHIM / 'include'}", "-"],
+                               input=src, capture_output=True, text=True)
+            for i, e in enumerate(todo):
+                m = re.search(rf"VERIF_EXPR_{i}\s+([^\n]*)", r.stdout)
+                if r.returncode != 0 or not m:
+                    raise cparse.CParseError(f"preprocessor failed on `{e}`: {r.stderr[-200:]}")
+                cache[e] = m.group(1)
+        return [cache[e] for e in exprs]
+
+    def expand(self, expr: str) -> str:
+        return self.expand_many([expr])[0]
+
+    def macro_hygiene(self):
+        """size macros are used inside products and quotients (`cur * NEQUATIONS`, `lrw / NEQUATIONS`, `i * NEQUATIONS + j`):
+        each must behave as one value there.  Returns [(name, value_in_product, expected)] for the offenders."""
+        from . import ceval
+        names = [n for n in ("NEQUATIONS", "NSPECIES", "NNZ", "NREACTIONS", "NELEMENTS", "THERMAL", "NHEATPROCS", "NCOOLPROCS")
+                 if n in self.macros]
+        exprs = [f"({n})" for n in names] + [f"7 * {n} * 3 - 1000 / (1000 / {n} * {n} + 1)" for n in names]
+        try:
+            texts = self.expand_many(exprs)
+        except cparse.CParseError:
+            return []
+        bad = []
+        for k, name in enumerate(names):
+            try:
+                alone = ceval.ev(cparse.parse_expr(texts[k]), {})
+                inprod = ceval.ev(cparse.parse_expr(texts[len(names) + k]), {})
+            except (cparse.CParseError, ZeroDivisionError, KeyError):
+                continue
+            if not alone:
+                continue
+            want = 7 * alone * 3 - ceval._cdiv(1000, (ceval._cdiv(1000, alone) * alone + 1))
+            if inprod != want:
+                bad.append((name, inprod, want))
+        return bad
+
     def batch_layout(self):
         """cusparse only: where system number `cur` of a batch lives.  Returns a list of (what, cur, offset, expected) for
         cur = 0..3: the kernels' own offset expressions evaluated with the macros of naunet_macros.h, next to the offset the
@@ -109,9 +154,10 @@ class Rendered:
         from . import ceval
         if self.backend != "cusparse":
             return []
-        env0 = {k: int(v) for k, v in self.macros.items() if re.fullmatch(r"-?\d+", str(v))}
-        env0.setdefault("NEQUATIONS", self.neqns)
+        env0 = {}
         out = []
+
+        expand = self.expand
         ftext = _read(self.path, "src/naunet_fex.cu", "src/naunet_fex.cpp")
         jtext = _read(self.path, "src/naunet_jac.cu", "src/naunet_jac.cpp")
         for what, body, var, per in (("fex-y", cparse.function_body(ftext, "FexKernel"), "yistart", self.neqns),
@@ -120,18 +166,25 @@ class Rendered:
             m = re.search(r"\bint\s+" + var + r"\s*=\s*([^;]+);", body)
             if not m:
                 raise cparse.CParseError(f"{what}: no `int {var} = ...;` in the kernel")
-            ast = cparse.parse_expr(m.group(1))
+            ast = cparse.parse_expr(expand(m.group(1)))
             for cur in range(4):
                 got = ceval.ev(ast, dict(env0, cur=cur))
                 out.append((what, cur, got, cur * per))
             base = re.search(r"realtype\s*\*\s*y_cur\s*=\s*([^;]+);", body)
             if not base or "".join(base.group(1).split()) != "y+yistart":
                 raise cparse.CParseError(f"{what}: y_cur is not y + yistart")
+            if var == "yistart":
+                # every system evaluates its rates with its own abundances and its own parameter block
+                ud = re.search(r"NaunetData\s*\*\s*udata\s*=\s*([^;]+);", body)
+                own = bool(ud) and "".join(ud.group(1).split()) == "&d_udata[cur]"
+                calls = re.findall(r"\bEval\w*Rates\s*\(([^;]*)\)\s*;", body)
+                args_ok = all([a.strip() for a in c.split(",")][1:] == ["y_cur", "udata"] for c in calls)
+                out.append((what.split("-")[0] + "-udata", 1, int(own and args_ok and bool(calls)), 1))
         for fn, text in (("Fex", ftext),):
             body = cparse.function_body(text, fn)
             m = re.search(r"\bint\s+nsystem\s*=\s*([^;]+);", body)
             if m and "lrw" in m.group(1):     # the number of systems derived from the vector length
-                ast = cparse.parse_expr(m.group(1))
+                ast = cparse.parse_expr(expand(m.group(1)))
                 for nsys in (1, 3):
                     got = ceval.ev(ast, dict(env0, lrw=nsys * self.neqns))
                     out.append((fn + "-nsystem", nsys, got, nsys))
